@@ -154,6 +154,44 @@ def main():
             rac.fail(f"disabled-target {n}", f"C10 disabled target {j}: changing its value changes the trajectory: {t1[:4]} vs {t2[:4]} ({e1}/{e2})",
                      PRELUDE + G.SRC + CHECK_SRC + f"p1 = {prob!r}\np2 = {prob2!r}\no1, d1, e1 = drive(p1, {calls!r}); o2, d2, e2 = drive(p2, {calls!r})\n"
                      "assert [list(map(float, r)) for r in o1._log['knobs']] == [list(map(float, r)) for r in o2._log['knobs']]\n", "MeritFunctionForMatch.__call__")
+    rac.section("target-disabled-between-calls", "two runs that differ only in the FUNCTION (row, offset, value) of one target; that target is "
+                "active for a first step() call, then the knobs are put on a common point by hand and the target is disabled (disable() or "
+                "disable_target=): the following call takes the same steps in both runs (plain finite-difference Jacobians: every family, "
+                "bit-exact; Broyden updates: linear family without limits, where the updated rows of the other targets stay exact, 1e-6)",
+                "problems with >= 2 targets", exhaustive=False)
+    for n in range(N // 3):
+        if rac.out_of_time(0.99):
+            break
+        broy = rac.rng.random() < 0.6
+        prob = G.rnd_problem(rac.rng, nk=rac.rng.randint(2, 3), nt=rac.rng.randint(2, 4), fam="linear" if broy else None, limits=False)
+        prob["tact"] = [True] * len(prob["val"])
+        j = rac.rng.randrange(len(prob["val"]))
+        prob2 = copy.deepcopy(prob)
+        prob2["A"][j] = [round(rac.rng.uniform(-2, 2), 2) for _ in prob["k0"]]
+        prob2["c"][j] = round(rac.rng.uniform(-1, 1), 2)
+        prob2["val"][j] += rac.rng.choice([0.0, 1.0, -2.5])
+        kw = ", broyden=True" if broy else ""
+        n2 = rac.rng.randint(1, 2)
+        percall = rac.rng.random() < 0.4
+        hand = [f"d['k{i}'] = {prob['k0'][i] + 0.013 * (i + 1)!r}" for i in range(len(prob["k0"])) if prob["kact"][i]]
+        calls = [f"opt.step(1{kw})"] + hand + ([f"opt.step({n2}{kw}, disable_target=[{j}])"] if percall
+                                               else [f"opt.disable(target=[{j}])", f"opt.step({n2}{kw})"])
+        try:
+            o1, d1, e1 = drive(prob, calls)
+            o2, d2, e2 = drive(prob2, calls)
+        except Exception as ex:     # noqa
+            continue
+        if e1 is not None or e2 is not None:
+            continue
+        a, b = knobs_of(d1, prob), knobs_of(d2, prob2)
+        tolr = 1e-6 if broy else 0.0
+        rac.case(json.dumps(prob) + str(calls), sample=dict(disabled_target=j, broyden=broy, per_call=percall))
+        if any(abs(x - y) > tolr * max(1.0, abs(y)) for x, y in zip(a, b)):
+            rac.fail(f"target-disabled-between-calls {n}", f"C10 {calls} on a {prob['fam']} problem: ends at {a}; with another function for target {j} "
+                     f"(disabled during the last call) it ends at {b}: the disabled target still shapes the step",
+                     PRELUDE + G.SRC + CHECK_SRC + f"p1 = {prob!r}\np2 = {prob2!r}\ncalls = {calls!r}\no1, d1, e1 = drive(p1, calls); o2, d2, e2 = drive(p2, calls)\n"
+                     f"a, b = knobs_of(d1, p1), knobs_of(d2, p2)\nassert all(abs(x - y) <= {tolr} * max(1.0, abs(y)) for x, y in zip(a, b)), (a, b)\n",
+                     "JacobianSolver.step")
     return rac.finish()
 
 
